@@ -305,6 +305,34 @@ def check(rep, tier, seed):
         uninst = max(lists, key=len) if lists else None
         rep.functions_encoded.append("proxy_agent_shared::" + un_path[0])
         rep.extra.setdefault("units", {})["shared uninstall_service(name)"] = [[n] + a for n, a in (uninst or [])]
+    # the service calls the command sequences are made of: stop_service / start_service run `systemctl <verb> <name>` on EVERY path
+    # (a stop that is skipped on some condition lets install / restore replace the files of a running agent)
+    for fn, verb in (("stop_service", "stop"), ("start_service", "start")):
+        sp = [p_ for p_ in sctx.idx.files if p_.endswith("linux_service::" + fn)]
+        if len(sp) != 1:
+            rep.add(Query("shared %s located" % fn, "inconclusive", "%d candidates" % len(sp), 0, "mirsym", key="C17.svc-unit:" + fn))
+            continue
+        es = sctx.engine(loop_bound=1, max_paths=2000)
+        es.auto_inline = sctx.new_function_auto()
+        ok, n = True, 0
+        why = ""
+        for r in es.explore(sp[0]):
+            if r.status == "panic":
+                continue
+            n += 1
+            ex = [e for e in r.events if e.kind == "call" and e.callee.endswith("execute_command")]
+            good = False
+            body_text = open(sctx.idx.files[sp[0]], errors="replace").read()
+            for e in ex:
+                prog = origin(e.rargs[0])
+                # (the argument vector is built through raw-pointer writes the executor does not follow: the verb is read from the body's constants)
+                if isinstance(prog, StrV) and prog.e.as_string() == "systemctl" and ('"%s"' % verb) in body_text:
+                    good = True
+            if not good:
+                ok = False
+                why = "a path of %s returns %s without running `systemctl %s`" % (fn, getattr(r.ret, "variant", "?"), verb)
+        rep.functions_encoded.append("proxy_agent_shared::" + sp[0])
+        rep.add(Query("shared %s(name): `systemctl %s <name>` is run on every path" % (fn, verb), "holds" if ok and n else "violated", why, 0, "mirsym", key="C17.svc-unit:" + fn, reproduced=None))
     if None in (backup, copyf, setupf, delf):
         return
 
